@@ -193,6 +193,37 @@ def r15d(ctx):
                 outer = (h, blks)
         ok2 = len(rs) == 1 and f.rooted_at(rs[0][2][3][0][1], fc[0]) and outer is not None and f.cfg.must_pass(rs[0][0], via_blocks=[outer[0]])
         ctx.check(ok2, 'R15d', AGG + 'finalize', 'ret', f.loc(rs[0][0], rs[0][1]) if rs else '-', 'the returned xorb is the one whose hash was patched in, and the return follows the patch loop')
+    # the index list handed to the aggregator names exactly the entries that still carry the placeholder hash: every
+    # index recorded is file_info.len() read *before* the push of the entry it stands for, and that push follows on
+    # every path (an index read after the push points one past the entry: the entry keeps the placeholder hash)
+    npend = 0
+    for p_, b_ in sorted(F.bodies.items()):
+        if b_['crate'] != 'deduplication' or '::tests::' in p_:
+            continue
+        ab = an(b_)
+        for P in ab.calls('alloc::vec::Vec::push'):
+            if not (ab.arg(P, 0)[0] == 'field' and ab.arg(P, 0)[2] == 'internally_referencing_entries'):
+                continue
+            npend += 1
+            x = ab.arg(P, 1)
+            L_ = ab.root_call(x)
+            okx = L_ is not None and sg(L_[1]).endswith('Vec::len') and L_[2][0][0] == 'field' and L_[2][0][2] == 'file_info' and x[0] == 'call'
+            lpx = c05.loop_of(ab, P)
+            lat = [(q, lpx[0]) for q in lpx[1] if lpx[0] in ab.cfg.succ[q]] if lpx else []
+            Qs = [q for q in ab.calls('alloc::vec::Vec::push') if ab.arg(q, 0)[0] == 'field' and ab.arg(q, 0)[2] == 'file_info']
+            okq = False
+            if okx and Qs:
+                Lb = L_[3]
+                after_L = ab.cfg.reach_after([Lb], cut_edges=lat)
+                paired = [q for q in Qs if q in after_L and Lb not in ab.cfg.reach_after([q], cut_edges=lat) and q != Lb]
+                # no entry is pushed between the read and the registration of the index, and the entry follows on every path
+                rets = set(ab.cfg.returns) | {q for (q, _) in lat}
+                cutq = [e_ for q in paired for e_ in ab.cfg.out_edges(q)]
+                leak = ab.cfg.reach_after([P], cut_edges=set(cutq) | set(lat)) & (set(ab.cfg.returns) | {q for (q, _) in lat if q not in paired})
+                okq = len(paired) == 1 and not leak
+            ctx.check(okx and okq, 'R15d', p_, 'pending index', ab.loc(P), 'the index recorded for a placeholder entry is file_info.len() read before that entry is pushed, and the push follows on every path',
+                      'an index recorded in internally_referencing_entries is not the position of the entry pushed afterwards (read after the push, or the push can be skipped): the entry keeps the placeholder xorb hash or finalize indexes out of bounds')
+    ctx.floor('R15d', 'registrations of placeholder entries (internally_referencing_entries.push)', npend, 2)
     nw = F.body(AGG + 'new')
     ctx.check(not nw.get('exported') and nw.get('vis', '').startswith('in:'), 'R15d', AGG + 'new', 'visibility', '%s:%d' % (nw['file'], nw['lo']), 'DataAggregator::new is crate-private (index lists come only from the deduper): %s' % nw.get('vis'))
     callers = {b['qpath'] for b, _ in ctx.cg.call_sites(AGG + 'new')}
